@@ -1009,3 +1009,13 @@ package vegeta
 //@   requires [non-nil] a != nil
 //@   modifies a.chunked
 //@   ensures [stores-the-given-value] a.chunked == b
+
+// H2C: the cleartext HTTP/2 transport dials through the dial function of the transport it replaces
+// (which carries the unix-socket wrapper and whatever was installed before), never through the
+// attacker's bare dialer.
+//@ func H2C$1
+//@   property C18
+//@   pragma unknowncalls havoc
+//@   pragma obligations contract
+//@   pragma frame off
+//@   forbid [h2c-keeps-the-installed-dial-function] call (*net.Dialer).DialContext
